@@ -789,18 +789,20 @@ func c42Leg(t *testing.T, leg string, props []string, pick func(*c42Scenario) bo
 	if r.ReplayFile() != "" {
 		var rp struct {
 			Replay struct {
-				Scenario string   `json:"scenario"`
-				History  []string `json:"history"`
-			} `json:"replay"`
-			Property string `json:"property"`
+				Scenario string
+				History  []string
+			}
 		}
-		if err := r.LoadReplay(&rp); err != nil {
+		if err := r.LoadReplay(&rp.Replay); err != nil {
 			r.EngineError("replay: %v", err)
 			return
 		}
 		sc := c42FindScenario(rp.Replay.Scenario)
-		if sc == nil {
-			r.EngineError("replay: unknown scenario %q", rp.Replay.Scenario)
+		if sc == nil || !pick(sc) {
+			// the artefact belongs to the other leg of this package
+			if sc == nil {
+				r.EngineError("replay: unknown scenario %q", rp.Replay.Scenario)
+			}
 			return
 		}
 		hist := c42ParseAll(rp.Replay.History)
